@@ -61,6 +61,11 @@ def siteExpr (site : String) (v : Int) : Option (Option String × (String → Op
   | "nested" => some (none, noenv, .under (.ctor "Pos" (.add (.under (.ctor "Pos" (.lit v))) (.lit 1))))
   | "alias" => some (none, noenv, .under (.alias "Pos" (.lit v)))
   | "named" => some (none, noenv, .under (.ctorNamed "Pos" (.lit v)))
+  -- the argument is itself the payload of another (unhooked) newtype, alone or inside an expression; a list element
+  | "rewrap" => some (none, noenv, .under (.ctor "Pos" (.under (.ctor "Other" (.lit v)))))
+  | "rewrapexpr" => some (none, noenv, .under (.ctor "Pos" (.add (.under (.ctor "Other" (.lit v))) (.lit 0))))
+  | "indexarg" => some (none, noenv, .under (.ctor "Pos" (.snd (.pair (.lit 1) (.lit v)))))
+  | "fstring" => some (none, noenv, .under (.ctor "Pos" (.lit v)))
   | _ => none
 
 def handleC17 : List String → String
